@@ -100,7 +100,7 @@ theorem dfu_run_ok (fw : List Nat) (pc : Nat) (s : Schedule) (flash₀ : Nat →
     funext q
     simp only [expectedFlash, pages_eq, chunk_eq]
     split <;> simp_all
-  refine ⟨hx, ?_, ?_, ?_, hfl, ?_, ?_, ?_, hs.mon⟩
+  refine ⟨hx, ?_, ?_, ?_, hfl, ?_, ?_, ?_, hs.mon.trans hi.mon⟩
   · show (match (steps _ _ _).exit with | some (n, _) => n | none => 0) = 0
     rw [he]
   · show (match (steps _ _ _).exit with | some (_, m) => m | none => ExitMsg.internal) = .ok
